@@ -320,7 +320,7 @@ fn gen_content_type(g: &mut Gen, f: &mut Faults) -> Item {
             _ => Item::Text(format!("{}a/b{}", g.pick(&["\t", "\u{3000}", "\u{85}", ""]), g.pick(&["\u{2028}", "\u{1680}", " "]))),
         };
     }
-    if g.ratio(1, 8) {
+    if f.take_odds(g, "content-type-free-form", 12) {
         // free composition of media-type-like pieces: may or may not be well-formed (the model decides)
         const PIECES: &[&str] = &["a", "text", "application", "/", "/", "x-é", "café", "json", ";", "; ", "p=", "\"a/b\"", "+", ".", "中", " ", "😀"];
         let n = 1 + g.below(6);
@@ -330,6 +330,15 @@ fn gen_content_type(g: &mut Gen, f: &mut Faults) -> Item {
             t.push_str(piece);
         }
         return Item::Text(t);
+    }
+    if g.ratio(1, 8) {
+        // well-formed by construction: type "/" subtype with slash-free parameters
+        const W: &[&str] = &["a", "text", "application", "x-é", "café", "json", "vnd.x+cbor", "中", "😀"];
+        const P: &[&str] = &["", ";p=1", "; charset=utf-8", ";q=\"é\"", "+x;y", " ;z"];
+        let a: &&str = g.pick(W);
+        let b: &&str = g.pick(W);
+        let p: &&str = g.pick(P);
+        return Item::Text(format!("{}/{}{}", a, b, p));
     }
     if g.bool() {
         Item::Int(pick_registered(g, reg::COAP_CONTENT_FORMAT) as i128)
